@@ -4,6 +4,7 @@ import (
 	"fmt"
 	"go/token"
 	"regexp"
+	"sort"
 	"strings"
 
 	"golang.org/x/tools/go/ssa"
@@ -279,6 +280,7 @@ func ruleC13(c *Ctx, r *Report) {
 
 	// ---- R3 single definition: no other hashing in the package
 	r.Floor("C13-R3", 1, "hash call sites")
+	pseudonymVerbatimRule(c, r, hn, "C13-R3")
 	for _, f := range c.SortedFuncs() {
 		allInstrs(f, func(i ssa.Instruction) {
 			cc := callCommonOf(i)
@@ -293,6 +295,59 @@ func ruleC13(c *Ctx, r *Report) {
 				r.Check(f == hn, "C13-R3", fmt.Sprintf("%s:hash(%s)", f.Name(), shortKey(k)), c.InstrPos(i), "the only hashing site is the pseudonym function", "a second hashing site exists: pseudonyms are not produced by one function")
 			}
 		})
+	}
+}
+
+// pseudonymVerbatimRule (C13-R3 / C15-R5): a pseudonym reaches the output as it is. In
+// particular it is never the *template* argument of a regexp replacement (ReplaceAllString
+// / ReplaceAll / Expand interpret `$name` and `${n}` in it, so a replacement text with a
+// '$' would be expanded away) and never re-processed by a string transformation.
+func pseudonymVerbatimRule(c *Ctx, r *Report, hn *ssa.Function, rule string) {
+	templateFns := map[string]int{"(*regexp.Regexp).ReplaceAllString": 2, "(*regexp.Regexp).ReplaceAll": 2, "(*regexp.Regexp).ExpandString": 2, "(*regexp.Regexp).Expand": 2}
+	n := 0
+	live := c.pkgReach(c.Fn("main"))
+	for _, call := range c.callersOf(hn) {
+		if !live[call.Parent()] {
+			continue // test-parameter tables compiled into the package, never reached from main
+		}
+		n++
+		var bad []string
+		seen := map[ssa.Value]bool{}
+		var visit func(v ssa.Value, depth int)
+		visit = func(v ssa.Value, depth int) {
+			if seen[v] || depth > 6 {
+				return
+			}
+			seen[v] = true
+			for _, use := range referrers(v) {
+				switch x := use.(type) {
+				case *ssa.BinOp:
+					if x.Op == token.ADD {
+						visit(x, depth+1)
+					}
+				case *ssa.Phi, *ssa.MakeInterface:
+					visit(x.(ssa.Value), depth+1)
+				case *ssa.Call:
+					k := calleeKey(&x.Call)
+					if idx, ok := templateFns[k]; ok && idx < len(x.Call.Args) && x.Call.Args[idx] == v {
+						bad = append(bad, "used as the replacement template of "+shortKey(k)+" at "+c.InstrPos(use))
+					}
+					for _, pfx := range []string{"strings.ToLower", "strings.ToUpper", "strings.Title", "strings.Trim", "strings.Map", "strings.Fields", "strings.Split"} {
+						if strings.HasPrefix(k, pfx) && len(x.Call.Args) > 0 && x.Call.Args[0] == v {
+							bad = append(bad, "transformed by "+shortKey(k)+" at "+c.InstrPos(use))
+						}
+					}
+				}
+			}
+		}
+		visit(call, 0)
+		sort.Strings(bad)
+		r.Check(len(bad) == 0, rule, fmt.Sprintf("%s:pseudonym-used-verbatim", call.Parent().Name()), c.InstrPos(call),
+			"the pseudonym is stored / returned / substituted as a literal text",
+			"the pseudonym is interpreted or transformed before it reaches the output, so it no longer has the form <replacement>_<16 hex> for every replacement text: "+strings.Join(bad, "; "))
+	}
+	if n == 0 {
+		r.Bad(rule, "pseudonym-call-sites", "-", "the pseudonym function has no call site")
 	}
 }
 
